@@ -429,3 +429,30 @@ package mqtt
 //@ invariant id: forall n int :: old(cl.nsent) <= n && n < cl.nsent ==> wasInflight(cl, cl.sentpk[n].PacketID)
 //@ invariant type: forall n int :: old(cl.nsent) <= n && n < cl.nsent ==> cl.sentpk[n].FixedHeader.Type == wasType(cl, cl.sentpk[n].PacketID)
 //@ invariant validCl(cl) && cl.ops.info != nil && cl.nsent >= old(cl.nsent)
+
+// ======================================================================================
+// Delivery to one subscriber (C03, C04, C10, C11, C17, C24, C34, C38)
+// ======================================================================================
+// verif:func mqtt.Client.Closed trusted pure
+//@ ensures cl.stopped ==> r0
+
+// verif:def min3(a byte, b byte, c byte) byte = (a <= b ? (a <= c ? a : c) : (b <= c ? b : c))
+// verif:def validClOut(cl *Client) bool = validCl(cl) && cl.State.TopicAliases.Outbound != nil && outInv(cl.State.TopicAliases.Outbound) && cl.State.TopicAliases.Outbound.maximum <= cl.Properties.Props.TopicAliasMaximum && cl.ops.options != nil && cl.ops.options.Capabilities != nil && maxID(cl) <= 65535 && cl.State.packetID <= maxID(cl)
+// verif:def nothingQueued(cl *Client) bool = cl.State.outbound.qlen == old(cl.State.outbound.qlen)
+// verif:def tableUntouched(cl *Client) bool = (forall k uint16 :: (has(ifl(cl), k) <==> old(has(ifl(cl), k))) && ifl(cl)[k] == old(ifl(cl)[k])) && len(ifl(cl)) == old(len(ifl(cl)))
+
+// verif:func mqtt.Server.publishToClient modifies=all
+//@ requires validClOut(cl) && validSrv(s) && s.Options.Capabilities.MaximumQos <= 2 && pk.FixedHeader.Qos <= 2 && sub.Qos <= 2
+//@ requires !has(ifl(cl), 0) && cl.Properties.ProtocolVersion <= 5 && pk.FixedHeader.Type == Publish
+//@ ensures C03-no-local-skips-own-message: sub.NoLocal && pk.Origin == cl.ID ==> r1 == nil && nothingQueued(cl) && tableUntouched(cl)
+//@ ensures C17-read-permission-checked-on-every-delivery: !(sub.NoLocal && pk.Origin == cl.ID) && !aclOK(cl, pk.TopicName, false) ==> r1 != nil && nothingQueued(cl) && tableUntouched(cl)
+//@ ensures C04-delivered-qos-is-the-minimum: r1 == nil && !(sub.NoLocal && pk.Origin == cl.ID) ==> r0.FixedHeader.Qos == min3(pk.FixedHeader.Qos, sub.Qos, s.Options.Capabilities.MaximumQos)
+//@ ensures C04-retain-flag: r1 == nil && !(sub.NoLocal && pk.Origin == cl.ID) ==> (r0.FixedHeader.Retain <==> (pk.FixedHeader.Retain && (sub.FwdRetainedFlag || (cl.Properties.ProtocolVersion == 5 && sub.RetainAsPublished))))
+//@ ensures C10-outbound-id-is-fresh: r1 == nil && r0.FixedHeader.Qos > 0 && !(sub.NoLocal && pk.Origin == cl.ID) ==> 1 <= r0.PacketID && uint32(r0.PacketID) <= maxID(cl) && !old(has(ifl(cl), r0.PacketID)) && hasT(cl, r0.PacketID, Publish)
+//@ ensures C09-other-ids-untouched: forall k uint16 :: old(has(ifl(cl), k)) ==> has(ifl(cl), k) && ifl(cl)[k] == old(ifl(cl)[k])
+//@ ensures C38-counter-follows-table: s.Info.Inflight - old(s.Info.Inflight) == len(ifl(cl)) - old(len(ifl(cl)))
+//@ ensures C11-held-back-when-no-send-quota: r1 == nil && r0.FixedHeader.Qos > 0 && old(cl.State.Inflight.sendQuota) == 0 && cl.State.Inflight.maximumSendQuota > 0 && !(sub.NoLocal && pk.Origin == cl.ID) ==> nothingQueued(cl)
+//@ ensures C11-send-quota-taken-per-stored-message: cl.State.Inflight.sendQuota == old(cl.State.Inflight.sendQuota) - ((len(ifl(cl)) > old(len(ifl(cl))) && old(cl.State.Inflight.sendQuota) > 0) ? 1 : 0)
+//@ ensures C03-queued-at-most-once: cl.State.outbound.qlen <= old(cl.State.outbound.qlen) + 1
+//@ ensures C24-alias-within-client-maximum: r0.Properties.TopicAlias <= cl.Properties.Props.TopicAliasMaximum || r0.Properties.TopicAlias == pk.Properties.TopicAlias
+//@ ensures C24-topic-or-known-alias: r1 == nil && !(sub.NoLocal && pk.Origin == cl.ID) && r0.TopicName == "" && pk.TopicName != "" ==> r0.Properties.TopicAlias > 0 && old(has(cl.State.TopicAliases.Outbound.internal, pk.TopicName))
